@@ -52,7 +52,7 @@ def generate(seed, tier):
     rec = _hist.generate_hist(
         ID, seed,
         gen_kwargs={"ntx": (1, 4), "maxops": 5, "p_iofault": 0.0, "p_raise": 0.06, "p_cancel": 0.12,
-                    "p_restart": 0.25, "schema_changes": r.random() < 0.25,
+                    "p_restart": 0.25, "schema_changes": r.random() < 0.3, "p_schema": (0.2, 0.3),
                     "p_delete": r.choice((0.15, 0.3))},
         cfg_kwargs={"force": {"long_text_p": 0.0}})
     if r.random() < 0.15:
@@ -98,9 +98,12 @@ def recover_check(snap, acceptable, cfg, seed, merge, where, stats):
     so.load_snapshot(snap)
     k.bind_main(name="recovery")
     seams.install(k, so)
+    from whoosim.session import apply_hashbits, restore_hashbits
+    saved = apply_hashbits(cfg)
     try:
         _recover(so, acceptable, cfg, merge, where, stats)
     finally:
+        restore_hashbits(saved)
         k.aborting = True
         seams.uninstall()
 
